@@ -1,5 +1,6 @@
 import PyCraft.Lemmas.C02Exact
 import PyCraft.Lemmas.C02ExactFloat
+import PyCraft.Lemmas.C02ExactDiv
 import PyCraft.Generated.WireFormats
 import PyCraft.Generated.Layouts
 /-!
@@ -10,15 +11,18 @@ integer (and `encode`/`decode` ignore `bits`), the value of `.uuid` is already t
 value of `.int .f32/.f64` is already the bit pattern.  This file closes that gap (audit rank 21):
 
 * **FixedPoint**: one object, one `bits`: what `FixedPoint(base, bits).send` puts on the wire for the
-  value `p/q`, and what `.read` returns, with the SAME `bits` on both sides; `FixedPointInteger`; the
-  `(base, bits)` pairs used by the library's packets.
+  value `p/q`, and what `.read` returns, with the SAME `bits` on both sides — `read` is Python's
+  `int / int`, a FLOAT: the binary64 nearest to `raw / 2^bits` (ties to even), which is `raw / 2^bits`
+  itself for every base type of at most 32 bits and, for the 64-bit ones, whenever that quotient is a
+  binary64; `FixedPointInteger`; the `(base, bits)` pairs used by the library's packets.
 * **UUID**: text ↔ 16 bytes (`uuid.UUID(text).bytes`, `str(uuid.UUID(bytes=…))`).
 * **Float / Double**: a Python float is a binary64 (its pattern `x`); `Double` stores it, `Float`
   rounds it to the NEAREST binary32 (ties to even), `OverflowError` exactly from `2^128 - 2^103` on.
 * **live probes** (`Generated/WireFormats.lean`, regenerated from `/repo` on every run): the class →
   format map and all of the above, compared with the live code by `decide +kernel`.
 
-Models: `Model/C02Exact.lean`; helper lemmas: `Lemmas/C02Exact.lean`, `Lemmas/C02ExactFloat.lean`.
+Models: `Model/C02Exact.lean`; helper lemmas: `Lemmas/C02Exact.lean`, `Lemmas/C02ExactFloat.lean`,
+`Lemmas/C02ExactDiv.lean`.
 Magnitudes of floats are naturals in units of `2^-1074` (`f64Mag`; a binary32 magnitude `f32Mag` is
 in units of `2^-149 = 2^925` such units).
 -/
@@ -35,9 +39,16 @@ float value `p/q` (`q > 0`), let `w = int(p/q · 2^bits)`:
   `|w − value·2^bits| < 1` (cross-multiplied by `q`), `w` has the sign of the value and never exceeds
   it in magnitude;
 * if `w` fits the base integer type, `send` writes exactly `width` bytes whose big-endian value is
-  `w mod 256^width` (two's complement), and `read` of those bytes followed by anything returns the
-  fraction `w / 2^bits` — denominator `2^bits` with the SAME `bits` — and leaves the rest; hence the
-  value read back is within one quantum `2^-bits` of the value sent (first item);
+  `w mod 256^width` (two's complement), and `read` of those bytes followed by anything leaves the rest
+  and returns a Python FLOAT `x` (binary64 pattern) that is finite, negative exactly when `w` is, and
+  - is a binary64 NEAREST to `w / 2^bits` — the SAME `bits` —: no binary64 magnitude `m'` whatsoever
+    is closer to `|w| / 2^bits` (magnitudes in units of `2^-1074`, cross-multiplied by `2^bits`), and
+    if a different one is equally close, `x` is the one with even significand (roundTiesToEven);
+  - IS `w / 2^bits` exactly whenever the base type has at most 32 bits, and for the 64-bit types
+    whenever `|w| < 2^53` (`bits ≤ 1074`, so that the quotient is not below the subnormal spacing);
+    then the value read back is within one quantum `2^-bits` of the value sent (first item).
+  For a 64-bit base and `|w| ≥ 2^53` the float is exact iff `w / 2^bits` is a binary64 (by the nearest
+  clause: distance 0 cannot be beaten); otherwise it is off by at most half a unit in the 53rd place;
 * otherwise `send` raises: `struct.error` (never a wrapped value) while `|value · 2^bits| < 2^1024`,
   and `OverflowError` from there on (the float product is `inf`). -/
 theorem fixed_same_bits (cc : CustomCodec) (base : IntT) (bits : Nat) (p q : Int) (hq : 0 < q)
@@ -47,9 +58,17 @@ theorem fixed_same_bits (cc : CustomCodec) (base : IntT) (bits : Nat) (p q : Int
     let overflow := (2 : Int) ^ 1024 * q ≤ p * 2 ^ bits ∨ (2 : Int) ^ 1024 * q ≤ -(p * 2 ^ bits)
     ((-q < w * q - p * 2 ^ bits ∧ w * q - p * 2 ^ bits < q) ∧
       (0 ≤ p → 0 ≤ w ∧ w * q ≤ p * 2 ^ bits) ∧ (p ≤ 0 → w ≤ 0 ∧ p * 2 ^ bits ≤ w * q)) ∧
-    (base.inDom w → ∃ bs, fp.send cc p q = .ok bs ∧ bs.length = base.width ∧
+    (base.inDom w → ∃ bs x, fp.send cc p q = .ok bs ∧ bs.length = base.width ∧
         (beValue bs : Int) = w % (256 : Int) ^ base.width ∧
-        fp.read cc (bs ++ rest) = .ok ((w, 2 ^ bits), rest)) ∧
+        fp.read cc (bs ++ rest) = .ok (x, rest) ∧
+        x < 2 ^ 64 ∧ x % 2 ^ 63 / 2 ^ 52 ≠ 2047 ∧ (x / 2 ^ 63 = 1 ↔ w < 0) ∧
+        (∀ m', absDiff (f64Mag (x % 2 ^ 63) * 2 ^ bits) (w.natAbs * 2 ^ 1074)
+                ≤ absDiff (f64Mag m' * 2 ^ bits) (w.natAbs * 2 ^ 1074) ∧
+          (absDiff (f64Mag (x % 2 ^ 63) * 2 ^ bits) (w.natAbs * 2 ^ 1074)
+                = absDiff (f64Mag m' * 2 ^ bits) (w.natAbs * 2 ^ 1074) →
+            f64Mag m' ≠ f64Mag (x % 2 ^ 63) → x % 2 = 0)) ∧
+        ((base.width ≤ 4 ∨ w.natAbs < 2 ^ 53) → bits ≤ 1074 →
+          f64Mag (x % 2 ^ 63) * 2 ^ bits = w.natAbs * 2 ^ 1074)) ∧
     (¬ base.inDom w → ¬ overflow → fp.send cc p q = .error .struct) ∧
     (overflow → ¬ base.inDom w ∧ fp.send cc p q = .error .other) := by
   dsimp only
@@ -80,23 +99,95 @@ theorem fixed_same_bits (cc : CustomCodec) (base : IntT) (bits : Nat) (p q : Int
   · obtain ⟨bs, h1, h2, h3⟩ := base.unpack_pack w hd
     obtain ⟨bs', h1', _, h3'⟩ := base.pack_spec w hd
     rw [h1] at h1'; cases h1'
-    refine ⟨bs, by rw [hsend (hfit hd), h1], h2, h3', ?_⟩
-    rw [fixed_read_eq, h3 rest]; rfl
+    have hd2 : (0 : Nat) < 2 ^ bits := Nat.two_pow_pos _
+    have hw65 : w.natAbs < 2 ^ 65 := by
+      obtain ⟨b1, b2⟩ := IntT.inDom_bound base w hd
+      omega
+    obtain ⟨hdiv, hlt⟩ := intTrueDiv_ok w (2 ^ bits) hd2 hw65
+    have hs : (if w < 0 then 2 ^ 63 else 0 : Nat) = 0 ∨ (if w < 0 then 2 ^ 63 else 0 : Nat) = 2 ^ 63 := by
+      split <;> simp
+    obtain ⟨s1, s2, s3, s4⟩ := pattern_split _ _ hs hlt
+    refine ⟨bs, _, by rw [hsend (hfit hd), h1], h2, h3', ?_, s1, s3, ?_, fun m' => ?_, fun hsmall hb => ?_⟩
+    · rw [fixed_read_eq, h3 rest]
+      show (do let x ← intTrueDiv w (2 ^ bits); pure (x, rest)) = _
+      rw [hdiv]; rfl
+    · rw [s4]
+      split
+      · next h => exact ⟨fun _ => h, fun _ => rfl⟩
+      · next h =>
+        refine ⟨fun e => ?_, fun e => absurd e h⟩
+        have : (0 : Nat) < 2 ^ 63 := Nat.two_pow_pos _
+        omega
+    · rw [s2]
+      obtain ⟨n1, n2⟩ := roundQuotF64_nearest (w.natAbs * 2 ^ 1074) (2 ^ bits) hd2 m'
+      refine ⟨n1, fun e1 e2 => ?_⟩
+      have hev := n2 e1 e2
+      rcases hs with e | e <;> rw [e] <;> omega
+    · rw [s2]
+      have hsm : w.natAbs < 2 ^ 53 := by
+        rcases hsmall with hwid | h
+        · have hdom := hd
+          cases base <;> simp [IntT.width] at hwid <;>
+            simp [IntT.inDom, IntT.signed, IntT.width] at hdom <;> omega
+        · exact h
+      exact roundQuotF64_exact _ _ hd2 (small_on_grid _ _ hsm hb)
   · rw [hsend ho]; exact base.pack_err w hd
   · exact fun hd => hfit hd ho
   · exact fixed_send_overflow cc base bits p q ho
 
 /-- The Python object and the existing wire code agree: short of float overflow,
 `FixedPoint(base, bits).send(p/q)` is the `.fixed base bits` codec (the code the generated packet
-layouts carry) applied to `fixedWire bits p q`, and `.read` is that codec followed by
-`fixedOfWire bits` — the `bits` of the code IS the scale. -/
+layouts carry) applied to `fixedWire bits p q`, and `.read` is that codec followed by Python's true
+division (`intTrueDiv`: the correctly rounded binary64 quotient) of the two components of the exact
+fraction `fixedOfWire bits v = (v, 2^bits)` — the `bits` of the code IS the scale. -/
 theorem fixed_is_fixed_code (cc : CustomCodec) (base : IntT) (bits : Nat) (p q : Int) (bs : Bytes)
     (h : ¬ ((2 : Int) ^ 1024 * q ≤ p * 2 ^ bits ∨ (2 : Int) ^ 1024 * q ≤ -(p * 2 ^ bits))) :
     (FixedPointT.init base bits).send cc p q
       = encode cc (.fixed base bits) (.int (fixedWire bits p q)) ∧
     (FixedPointT.init base bits).read cc bs
-      = (do let (v, r) ← base.unpack bs; pure (fixedOfWire bits v, r)) :=
-  ⟨fixed_send_eq cc base bits p q h, fixed_read_eq cc base bits bs⟩
+      = (do let (v, r) ← base.unpack bs
+            let x ← intTrueDiv (fixedOfWire bits v).1 (fixedOfWire bits v).2.toNat
+            pure (x, r)) := by
+  refine ⟨fixed_send_eq cc base bits p q h, ?_⟩
+  rw [fixed_read_eq]
+  have : ∀ v : Int, (fixedOfWire bits v).2.toNat = 2 ^ bits := by
+    intro v
+    have : (fixedOfWire bits v).2 = ((2 ^ bits : Nat) : Int) := by simp [fixedOfWire]
+    rw [this, Int.toNat_natCast]
+  simp only [this]
+  simp only [fixedOfWire]
+
+/-- **Fixed point, reading a 64-bit base beyond `2^53`** (where the float is NOT the exact fraction).
+`read` never fails on 8 bytes, and the float it returns for the wire integer `v` satisfies
+`2 · |x · 2^bits − v| ≤ 2^bits · ulp`, with `ulp = 2^(⌊log2 (|v| / 2^bits)⌋ − 52)` the binary64 spacing
+at the quotient (all in units of `2^-1074`; `ulp` is one unit in the subnormal range): the value
+returned is within HALF a unit in the last place of `v / 2^bits`. -/
+theorem fixed_read_half_ulp (cc : CustomCodec) (base : IntT) (bits : Nat) (v : Int)
+    (hd : base.inDom v) (rest : Bytes) :
+    ∃ bs x, base.pack v = .ok bs ∧
+      (FixedPointT.init base bits).read cc (bs ++ rest) = .ok (x, rest) ∧
+      2 * absDiff (f64Mag (x % 2 ^ 63) * 2 ^ bits) (v.natAbs * 2 ^ 1074)
+        ≤ 2 ^ bits * 2 ^ ((v.natAbs * 2 ^ 1074 / 2 ^ bits).log2 - 52) := by
+  obtain ⟨bs, h1, _, h3⟩ := base.unpack_pack v hd
+  have hd2 : (0 : Nat) < 2 ^ bits := Nat.two_pow_pos _
+  have hw65 : v.natAbs < 2 ^ 65 := by
+    obtain ⟨b1, b2⟩ := IntT.inDom_bound base v hd
+    omega
+  obtain ⟨hdiv, hlt⟩ := intTrueDiv_ok v (2 ^ bits) hd2 hw65
+  have hs : (if v < 0 then 2 ^ 63 else 0 : Nat) = 0 ∨ (if v < 0 then 2 ^ 63 else 0 : Nat) = 2 ^ 63 := by
+    split <;> simp
+  obtain ⟨_, s2, _, _⟩ := pattern_split _ _ hs hlt
+  refine ⟨bs, (if v < 0 then 2 ^ 63 else 0) + roundQuotF64 (v.natAbs * 2 ^ 1074) (2 ^ bits), h1, ?_, ?_⟩
+  · rw [fixed_read_eq, h3 rest]
+    show (do let x ← intTrueDiv v (2 ^ bits); pure (x, rest)) = _
+    rw [hdiv]; rfl
+  · rw [s2, roundQuotF64_value_mul _ _ hd2]
+    have hG : 0 < 2 ^ bits * 2 ^ f64Quantum (v.natAbs * 2 ^ 1074 / 2 ^ bits) :=
+      Nat.mul_pos hd2 (Nat.two_pow_pos _)
+    obtain ⟨n1, n2⟩ := rneNat_near (v.natAbs * 2 ^ 1074) _ hG
+    show _ ≤ 2 ^ bits * 2 ^ f64Quantum (v.natAbs * 2 ^ 1074 / 2 ^ bits)
+    unfold absDiff
+    omega
 
 /-- Different `fractional_bits` give different objects (the scale is not ignored). -/
 theorem fixed_scale_injective (base : IntT) (b1 b2 : Nat) :
@@ -444,9 +535,22 @@ theorem angle_probes_ok :
 
 /-- 1/32-block coordinates: 67.40625 = 2157/32 is sent exactly; −7/3 is truncated toward zero -/
 example : (FixedPointT.init .i32 5).send noCustomCodec 2157 32 = .ok [0, 0, 8, 0x6d] ∧
-    (FixedPointT.init .i32 5).read noCustomCodec [0, 0, 8, 0x6d, 0xee] = .ok ((2157, 32), [0xee]) ∧
+    (FixedPointT.init .i32 5).read noCustomCodec [0, 0, 8, 0x6d, 0xee]
+      = .ok (0x4050DA0000000000, [0xee]) ∧ f64Frac 0x4050DA0000000000 = (2157 * 2 ^ 1069, 32 * 2 ^ 1069) ∧
     (FixedPointT.init .i16 12).send noCustomCodec (-7) 3 = .ok [0xda, 0xab] ∧
     Int.tdiv (-7 * 2 ^ 12) 3 = -9557 := by decide +kernel
+/-- 64-bit bases beyond `2^53`: `2^53 + 1` (a tie) reads as `2^53` (even), `2^53 + 3` as `2^53 + 4`,
+`−2^63` exactly; `−1` over `2^5` is `−0.03125`; the exactness hypothesis `|w| < 2^53` of
+`fixed_same_bits` is sharp -/
+example : (FixedPointT.init .i64 0).read noCustomCodec [0, 0x20, 0, 0, 0, 0, 0, 1]
+      = .ok (0x4340000000000000, []) ∧ f64Mag 0x4340000000000000 = 2 ^ 53 * 2 ^ 1074 ∧
+    (FixedPointT.init .i64 0).read noCustomCodec [0, 0x20, 0, 0, 0, 0, 0, 3]
+      = .ok (0x4340000000000002, []) ∧ f64Mag 0x4340000000000002 = (2 ^ 53 + 4) * 2 ^ 1074 ∧
+    (FixedPointT.init .i64 0).read noCustomCodec [0x80, 0, 0, 0, 0, 0, 0, 0]
+      = .ok (0xC3E0000000000000, []) ∧ f64Mag 0x43E0000000000000 = 2 ^ 63 * 2 ^ 1074 ∧
+    (FixedPointT.init .i32 5).read noCustomCodec [0xff, 0xff, 0xff, 0xff, 7]
+      = .ok (0xBFA0000000000000, [7]) ∧ f64Mag 0x3FA0000000000000 * 2 ^ 5 = 1 * 2 ^ 1074 := by
+  decide +kernel
 /-- all three branches of `fixed_same_bits` are inhabited -/
 example : IntT.i8.inDom (Int.tdiv (3 * 2 ^ 5) 1) ∧ ¬ IntT.i8.inDom (Int.tdiv (4 * 2 ^ 5) 1) ∧
     (FixedPointT.init .i8 5).send noCustomCodec 4 1 = .error .struct ∧
@@ -497,19 +601,38 @@ private def initIgnoringBits (integerType : IntT) (_fractionalBits : Nat := 5) :
   ⟨integerType, 2 ^ 5⟩
 
 /-- … violates `fixed_same_bits` at `FixedPoint(Short, 12)`, value 1: the theorem demands the bytes of
-`int(1 · 2^12) = 4096` and the fraction `4096 / 2^12` back; the changed object writes 32 and returns
-denominator 32. -/
+`int(1 · 2^12) = 4096` and a float of value exactly `4096 / 2^12 = 1` back; the changed object writes
+32 and returns `4096 / 32 = 128.0`. -/
 example :
     IntT.i16.inDom (Int.tdiv (1 * 2 ^ 12) 1) ∧
     ¬ (∃ bs, (initIgnoringBits .i16 12).send noCustomCodec 1 1 = .ok bs ∧
         (beValue bs : Int) = Int.tdiv (1 * 2 ^ 12) 1 % (256 : Int) ^ IntT.i16.width) ∧
-    (initIgnoringBits .i16 12).read noCustomCodec [0x10, 0]
-      ≠ .ok ((Int.tdiv (1 * 2 ^ 12) 1, 2 ^ 12), []) := by
-  refine ⟨by decide +kernel, ?_, by decide +kernel⟩
+    (initIgnoringBits .i16 12).read noCustomCodec [0x10, 0] = .ok (0x4060000000000000, []) ∧
+    f64Mag (0x4060000000000000 % 2 ^ 63) * 2 ^ 12 ≠ (Int.tdiv (1 * 2 ^ 12) 1).natAbs * 2 ^ 1074 ∧
+    (FixedPointT.init .i16 12).read noCustomCodec [0x10, 0] = .ok (0x3FF0000000000000, []) ∧
+    f64Mag (0x3FF0000000000000 % 2 ^ 63) * 2 ^ 12 = (Int.tdiv (1 * 2 ^ 12) 1).natAbs * 2 ^ 1074 := by
+  refine ⟨by decide +kernel, ?_, by decide +kernel, by decide +kernel, by decide +kernel,
+    by decide +kernel⟩
   rintro ⟨bs, h1, h2⟩
   have hs : (initIgnoringBits .i16 12).send noCustomCodec 1 1 = .ok [0, 32] := by decide +kernel
   rw [hs] at h1; cases h1
   revert h2; decide +kernel
+
+/-- `return self.integer_type.read(file_object) // self.denominator`-style EXACT arithmetic instead of
+the float division (the model before this revision): for `FixedPoint(Long, 0)` and the bytes of
+`2^53 + 1` it would denote `9007199254740993`, which is not a binary64 — no pattern has that value, so
+no Python float can be what such a `read` returns; the real `read` (and the model) return `2^53`. -/
+example : (∀ m', f64Mag m' ≠ (2 ^ 53 + 1) * 2 ^ 1074) ∧
+    (FixedPointT.init .i64 0).read noCustomCodec [0, 0x20, 0, 0, 0, 0, 0, 1]
+      = .ok (0x4340000000000000, []) := by
+  refine ⟨fun m' h => ?_, by decide +kernel⟩
+  -- the nearest binary64 to (2^53+1) is at distance 2^1074 > 0, so nothing is at distance 0
+  have hn := (roundQuotF64_nearest ((2 ^ 53 + 1) * 2 ^ 1074) 1 (by omega) m').1
+  have hv : f64Mag (roundQuotF64 ((2 ^ 53 + 1) * 2 ^ 1074) 1) = 2 ^ 53 * 2 ^ 1074 := by
+    decide +kernel
+  rw [hv, h] at hn
+  revert hn
+  decide +kernel
 
 /-- `FixedPointInteger = FixedPoint(Integer, 4)` (basic.py:129 changed) contradicts
 `fixedPointInteger_spec`, and the live-probe theorem `fixedPointInteger_live` would then compare the
